@@ -138,11 +138,13 @@ def run_cache(payload):
         try:
             for ev in beh:
                 files = [os.path.join(d, f) for f in sorted(os.listdir(d)) if f not in foreign_files]
-                if ev == "foreign":
+                if ev in ("foreign", "foreignorder"):
                     before = set(os.listdir(d))
                     e = {"ev": ev, "raised": "", "same": True, "load": ""}
                     try:
-                        HyperscanTokenizer(cache_dir=d, extractors=L2).tokenize(PROBE)
+                        # other flags, or the same patterns and flags in another order (reversed / rotated)
+                        other = L2 if ev == "foreign" else (list(reversed(L)) if bi % 2 == 0 else L[1:] + L[:1])
+                        HyperscanTokenizer(cache_dir=d, extractors=other).tokenize(PROBE)
                     except Exception as ex:  # noqa: BLE001
                         e["raised"] = "foreign tokenizer: " + type(ex).__name__
                     # a file it created under a NEW name is its own; a name we already use is shared
